@@ -116,7 +116,8 @@ impl Prop for C05 {
     }
 
     fn rule() -> &'static str {
-        "lane sched: W in 1..=4 workers, n in 0..=8 uniquely tagged items, one controller-chosen \
+        "lane sched: W in 1..=4 workers, n in 0..=8 uniquely tagged items (thorough: a quarter of the \
+         cases with W in 5..=7 and n up to 14), one controller-chosen \
          interleaving of the real worker threads and the consumer at the verif schedule points \
          (before/after ticket take, after compute, turn spin, before/after send, after turn advance, \
          exit; consumer before/after recv) per case, strategies random walk / PCT(d=1..3) / burst (two participants released at once) / \
@@ -183,9 +184,17 @@ impl Prop for C05 {
             };
         }
         if lane == "sched" {
-            let threads = rng.random_range(1..=4u8);
+            // thorough: also larger configurations (more workers than the channel-full / turn logic
+            // is usually seen with, longer inputs)
+            let big = tier == Tier::Thorough && rng.random_range(0..4) == 0;
+            let threads = if big {
+                rng.random_range(5..=7u8)
+            } else {
+                rng.random_range(1..=4u8)
+            };
             let n = match rng.random_range(0..10) {
                 0 => rng.random_range(0..=2),
+                _ if big => rng.random_range(6..=14),
                 _ => rng.random_range(3..=8),
             };
             let strategy = match rng.random_range(0..10) {
@@ -348,6 +357,10 @@ impl Prop for C05 {
             obs.add("mispredicted_steps", r.mispredictions);
             obs.add("blocked_in_real_op_detections", r.blocked_detections);
             obs.distinct("interleavings", hash64(&r.trace));
+            // a replay re-drives the controller with this grant sequence
+            let mut rc = c.clone();
+            rc.strategy = Strategy::Replay(r.trace.iter().map(|(p, _)| *p).collect());
+            obs.replay_case = serde_json::to_value(&rc).ok();
             match r.end {
                 RunEnd::Finished | RunEnd::Aborted => {}
                 RunEnd::Deadlock(d) => {
